@@ -77,6 +77,97 @@ def strategy(tier):
     return _case(tier)
 
 
+# ---- family "race": two openers of a path that has no store yet, under every single-preemption schedule ----------
+RACE_CFGS = [{"store_depth": 3, "store_width": 2, "store_algorithm": "SHA-256", "store_metadata_namespace": NSS[0]},
+             {"store_depth": 3, "store_width": 2, "store_algorithm": "MD5", "store_metadata_namespace": NSS[0]},
+             {"store_depth": 2, "store_width": 2, "store_algorithm": "SHA-256", "store_metadata_namespace": NSS[1]},
+             {"store_depth": 3, "store_width": 2, "store_algorithm": "sha256", "store_metadata_namespace": NSS[0]}]   # invalid
+
+
+def enumerate_cases(tier):
+    for a in range(len(RACE_CFGS)):
+        for b in range(len(RACE_CFGS)):
+            for path_state in ("absent", "empty-dir"):
+                yield {"family": "race", "a": a, "b": b, "path_state": path_state}
+
+
+def case_cost(case):
+    return 20 if case.get("family") == "race" else 1
+
+
+def _yaml_cfg(root):
+    import yaml
+    with open(os.path.join(root, "hashstore.yaml")) as f:
+        y = yaml.safe_load(f)
+    return {"store_depth": int(y["store_depth"]), "store_width": int(y["store_width"]), "store_algorithm": y["store_algorithm"],
+            "store_metadata_namespace": y["store_metadata_namespace"]}
+
+
+def _race_case(case, ctx):
+    """A refused open must not create or modify anything - also when the refusal is the lost race against another
+    opener of the same path: afterwards the winner's configuration file is there and the store opens with it."""
+    from .. import fsi, sched
+    fsi.install()
+    cfgs = [RACE_CFGS[case["a"]], RACE_CFGS[case["b"]]]
+    ctx.evaluations -= 1
+    n = 0
+    for first in (0, 1):
+        order = [first, 1 - first]
+        i = 0
+        while True:
+            parent = ctx.scratch("c14race")
+            root = os.path.join(parent, "st")
+            if case["path_state"] == "empty-dir":
+                os.makedirs(root)
+            s = sched.Sched(parent)
+            for c in cfgs:
+                s.add(lambda c=c: call(common.hs().FileHashStore, dict(c, store_path=root)))
+            ch = sched.preemption_chooser(order, [(i, 0)] if i else [])
+            try:
+                outs = s.run(ch)
+            except sched.Deadlock as dl:
+                ctx.violation("openers-deadlock", f"two openers {cfgs} order={order} preemption after {i} steps: {dl.info}", {"phase": "race"})
+            if i and ch.state["used"] == 0:
+                shutil.rmtree(parent, ignore_errors=True)
+                break
+            ctx.count()
+            n += 1
+            desc = (f"two concurrent openers of a path without a store ({case['path_state']}): configs {cfgs}, thread order {order}, "
+                    f"preemption after {i} steps; outcomes {[('ok' if is_ok(o) else o[1]) for o in outs]}")
+            won = [c for c, o in zip(cfgs, outs) if is_ok(o)]
+            if won:
+                try:
+                    y = _yaml_cfg(root)
+                except Exception as e:  # noqa
+                    y = None
+                    ctx.violation("race-lost-configuration", f"{desc}: an opener succeeded but afterwards hashstore.yaml is missing or "
+                                  f"unreadable ({type(e).__name__}: {e})", {"phase": "race"})
+                if y is not None and y not in won:
+                    ctx.violation("race-foreign-configuration", f"{desc}: hashstore.yaml holds {y}, which no successful opener asked for",
+                                  {"phase": "race"})
+                for c, o in zip(cfgs, outs):
+                    if y is not None and is_ok(o) and c != y:
+                        ctx.violation("race-mismatch-accepted", f"{desc}: the opener asking for {c} was not refused although the store's "
+                                      f"configuration is {y}", {"phase": "race", "invalid_algorithm": c["store_algorithm"] not in GOOD_ALGOS})
+                if y is not None:
+                    again = call(common.hs().FileHashStore, dict(y, store_path=root))
+                    if not is_ok(again):
+                        ctx.violation("race-store-unopenable", f"{desc}: reopening with the configuration in hashstore.yaml raised "
+                                      f"{again[1]}: {again[2][:160]}", {"phase": "race"})
+            elif all(c["store_algorithm"] in GOOD_ALGOS for c in cfgs):
+                ctx.violation("valid-config-refused", f"{desc}: both openers of a fresh path were refused", {"phase": "race"})
+            if not won and os.path.exists(os.path.join(root, "hashstore.yaml")):
+                ctx.violation("refused-create-modified-files", f"{desc}: nobody succeeded but a hashstore.yaml exists", {"phase": "race"})
+            if i:
+                ctx.nontrivial(["race", case["a"], case["b"], case["path_state"], order, i, [is_ok(o) for o in outs]])
+            shutil.rmtree(parent, ignore_errors=True)
+            i += 1
+    ctx.classify("racing-openers-programs")
+    ctx.classify("racing-openers-schedules", n)
+    if case["a"] != case["b"]:
+        ctx.sample({"family": "racing openers", "configs": cfgs, "schedules": n})
+
+
 def _props(root, vals, enc):
     p = {"store_path": root}
     for k, v in vals.items():
@@ -85,6 +176,8 @@ def _props(root, vals, enc):
 
 
 def run_case(case, ctx):
+    if case.get("family") == "race":
+        return _race_case(case, ctx)
     parent = ctx.scratch("c14")
     root = os.path.join(parent, "st")
     if case.get("previous_life"):
